@@ -692,6 +692,10 @@ func runDynFunc(r *engine.Run) {
 		{`("prototype" in Math.max.bind(null))`, "false"},
 		{`(function(){ var b = (function(){}).bind(null), r = []; try { b.caller; r.push("read") } catch (e) { r.push(e.name) } try { b.caller = 1; r.push("written") } catch (e) { r.push(e.name) } try { b.arguments; r.push("read") } catch (e) { r.push(e.name) } try { b.arguments = 1; r.push("written") } catch (e) { r.push(e.name) } return r.join() })()`, "TypeError,TypeError,TypeError,TypeError"},
 		{`(function(){ var b = (function(){}).bind(null), c = Object.getOwnPropertyDescriptor(b, "caller"), a = Object.getOwnPropertyDescriptor(b, "arguments"); return [typeof c.get, c.get === c.set, c.get === a.get, c.enumerable, c.configurable, a.enumerable, a.configurable].join() })()`, "function,true,true,false,false,false,false"},
+		// 15.3.5.3 [[HasInstance]]: a primitive left operand gives false before "prototype" is looked at;
+		// an object left operand with a non-object "prototype" is a TypeError
+		{`[1 instanceof parseInt, "x" instanceof Function.prototype, null instanceof Math.max, undefined instanceof (function(){}).bind(null), 1 instanceof Number, (function(){ function F(){} F.prototype = 5; return 1 instanceof F })()].join()`, "false,false,false,false,false,false"},
+		{`(function(){ var r = []; try { r.push(({}) instanceof parseInt) } catch (e) { r.push(e.name) } try { function F(){} F.prototype = 5; r.push(({}) instanceof F) } catch (e) { r.push(e.name) } try { r.push(({}) instanceof Math) } catch (e) { r.push(e.name) } return r.join() })()`, "TypeError,TypeError,TypeError"},
 		{`(function(){ return arguments.length })(1, 2, 3)`, "3"}, {`(function(a){ return arguments.callee.length })()`, "1"},
 	}
 	for _, cfg := range configs {
